@@ -269,6 +269,37 @@ func runCase(c Case, x *ev.Ctx) error {
 	if d := diffEff(*ej, *ec); d != "" {
 		return fmt.Errorf("Caddyfile and JSON forms of the same settings yield different validators (%s)", d)
 	}
+	// the configuration is a function of the options (and of what the referenced files contain NOW), not of what an
+	// earlier load of the process saw: the trusted responder certificates and the additional trusted signer are
+	// replaced by other certificates under the same file names, then both forms are loaded again
+	replaced := 0
+	for i := range f.resp {
+		ca := world.NewSimplePKI(name+" resp", []string{"p256e", "p384"}[i%2], "").Root
+		os.WriteFile(f.resp[i], ca.PEM(), 0o600)
+		f.respDER[i] = ca.Cert.Raw
+		replaced++
+	}
+	for i := 1; i < len(f.signers); i++ {
+		ca := world.NewSimplePKI(name, "p256f", "").Root
+		os.WriteFile(f.signers[i], ca.PEM(), 0o600)
+		f.signerDER[i] = ca.Cert.Raw
+		replaced++
+	}
+	if replaced > 0 {
+		ej2, errJ2 := loadJSON()
+		ec2, errC2 := loadCF()
+		if errJ2 != nil || errC2 != nil {
+			return fmt.Errorf("after %d trusted certificate files were replaced by other valid certificates the same configuration no longer loads: json: %v, caddyfile: %v", replaced, errJ2, errC2)
+		}
+		want2 := expected(c, f, enabled)
+		if d := diffEff(want2, *ej2); d != "" {
+			return fmt.Errorf("JSON, second load after %d trusted certificate files were replaced under the same names: effective configuration differs from the settings (%s): an earlier load of the process decides what is trusted\nconfig: %s", replaced, d, jsonCfg)
+		}
+		if d := diffEff(want2, *ec2); d != "" {
+			return fmt.Errorf("Caddyfile, second load after %d trusted certificate files were replaced under the same names: effective configuration differs from the settings (%s)\nconfig:\n%s", replaced, d, cfBody)
+		}
+		x.Class("reloaded-after-trusted-files-replaced")
+	}
 	set := 0
 	for _, o := range []Opt{c.Mode, c.Storage, c.Interval, c.Sig, c.Fetch, c.CDPStrict, c.Cache, c.AIAStrict} {
 		if o.Set {
@@ -280,8 +311,8 @@ func runCase(c Case, x *ev.Ctx) error {
 	if set >= 3 {
 		x.NonTrivial(fmt.Sprintf("%+v", struct {
 			A, B, C, D, E, F, G, H Opt
-			U, Fi, S, R           int
-			X, Y, Z               bool
+			U, Fi, S, R            int
+			X, Y, Z                bool
 		}{c.Mode, c.Storage, c.Interval, c.Sig, c.Fetch, c.CDPStrict, c.Cache, c.AIAStrict, c.URLs, c.Files, c.Signers, c.Responders, c.CRLBlock, c.CDPBlock, c.OCSPBlock}))
 	}
 	return nil
@@ -601,10 +632,10 @@ func stableShuffle(lines []string, order []int) []string {
 }
 
 var spec = ev.Spec[Case]{
-	ID:  "C19",
-	Gen: genCase,
-	Run: runCase,
-	Rule: "rapid draws an option assignment: each of mode, storage_type, update_interval, signature_validation_mode, crl_fetch_mode, crl_cdp_strict, default_cache_duration, ocsp_aia_strict is omitted or takes one of its valid values; 0..2 crl_urls, crl_files, trusted signature cert files, trusted responder cert files; the crl/cdp/ocsp blocks may be present but empty or (where the mode allows) absent; the Caddyfile option order is permuted. A quarter of the cases carry one defect: a misspelt key at one of four nesting levels (4 typo styles) or an invalid value for one of 11 options. Both renderings go through caddy's own path (JSON: LoadModuleByID with strict decoding + Provision; Caddyfile: caddytls.ClientAuthentication.UnmarshalCaddyfile -> emitted JSON -> LoadModuleByID). Oracles: valid assignments provision in both syntaxes; the effective configuration (parsed mode, storage, interval, signature mode, lists, certificates by DER, fetch mode, strict flags, cache duration) equals the settings with documented defaults for omitted options, and is identical between the syntaxes; a defective config is rejected in BOTH syntaxes. Non-trivial: >= 3 options set, or a defect; distinct by assignment.",
+	ID:          "C19",
+	Gen:         genCase,
+	Run:         runCase,
+	Rule:        "rapid draws an option assignment: each of mode, storage_type, update_interval, signature_validation_mode, crl_fetch_mode, crl_cdp_strict, default_cache_duration, ocsp_aia_strict is omitted or takes one of its valid values; 0..2 crl_urls, crl_files, trusted signature cert files, trusted responder cert files; the crl/cdp/ocsp blocks may be present but empty or (where the mode allows) absent; the Caddyfile option order is permuted. A quarter of the cases carry one defect: a misspelt key at one of four nesting levels (4 typo styles) or an invalid value for one of 11 options. Both renderings go through caddy's own path (JSON: LoadModuleByID with strict decoding + Provision; Caddyfile: caddytls.ClientAuthentication.UnmarshalCaddyfile -> emitted JSON -> LoadModuleByID). Oracles: valid assignments provision in both syntaxes; the effective configuration (parsed mode, storage, interval, signature mode, lists, certificates by DER, fetch mode, strict flags, cache duration) equals the settings with documented defaults for omitted options, and is identical between the syntaxes; a defective config is rejected in BOTH syntaxes. Non-trivial: >= 3 options set, or a defect; distinct by assignment. After a valid assignment was checked, the trusted responder certificate files and the additional trusted signer file are replaced by other certificates under the same names and both forms are loaded again: the effective configuration must follow the files' present content.",
 	Assumptions: []string{"configured CRLs are signed by a configured trusted signer so that every valid assignment is provisionable"},
 }
 
